@@ -97,6 +97,7 @@ META["C14"] = {
 
 META["C10"] = {
     "level": "exploration",
+    "parts": 3,
     "tiers": {
         "quick": {"shards": 3, "deadline_s": 200,
                   "bounds": "3 types x 9 standard engines x {PLAIN, VEGAS, MULTI-CHANNEL (weight touched or not)} x d in {1,2,3} x calls in {0,1,2,5} x 4 integrand patterns x {default, user grid / weights with one disabled channel, weights with a single enabled channel}; stored generators over 3 iterations (3,0,5 calls); engine ranges R = 2..4096, 2^k, 2^k+-1 (k <= 64), offsets 0,1,5"},
@@ -106,5 +107,22 @@ META["C10"] = {
     "assumptions": [
         "draws are counted by deriving from the standard engine and shadowing operator(); discard() is not counted",
         "libstdc++'s std::generate_canonical as installed (g++ 12.2)",
+    ],
+}
+
+META["C05"] = {
+    "level": "exploration",
+    "parts": 3,
+    "tiers": {
+        "quick": {"shards": 3, "deadline_s": 300,
+                  "bounds": "codec: every exponent (long double: every 64th plus the extremes and the middle) x mantissa in {0,1,all ones,0x55..,0xAA..,every single bit} x both signs through 9 writing sites; structure: one-field-at-a-time sweeps and the 2^8 product of the two smallest values over results 0..2, distributions 0..2, bins 1..3x1..2, channels 1..3, dimensions 1..2, grid bins 2..3, 10 names (empty, blanks, leading/trailing blanks, tab, '#x'), counters {0,1,2^32,2^64-1}, 9 engines advanced by {0,1,7,1000}; 3 types"},
+        "thorough": {"shards": 16, "deadline_s": 3000,
+                     "bounds": "as quick with every long double exponent, plus every finite float bit pattern (2^32 - 2^24) through vegas_pdf, mc_result, vegas_result and multi_channel_result"},
+    },
+    "rule": "enumeration of bit patterns / shapes; a value is written through the real serialize() member and read back through the real stream constructor; distinct = distinct values (by bits) plus distinct structural configurations; non-trivial = every value whose decimal expansion needs rounding (all but a handful) and every configuration with at least one distribution or adaptive state",
+    "assumptions": [
+        "finite values only; names without newline",
+        "the stored generators other than the last are compared through the re-serialised text (they have no public accessor)",
+        "a fresh VEGAS checkpoint whose dimension was never set cannot be serialised at all and is not part of the alphabet",
     ],
 }
